@@ -1,7 +1,7 @@
 (** C10 - The dump on disk is always a complete, loadable, per-key-consistent snapshot.
     Statements only; proofs are in Proofs/RdbFacts.v.  Parts: (1) crash points of a save
     (temporary file + rename, Model/Rdb.v [save_run]); (3) damaged input (the loader
-    [load], Model/Rdb.v).  (2) value/TTL of one key under a concurrent save: partial, with refutations. *)
+    [load], Model/Rdb.v).  (2) value/TTL of one key under a concurrent save. *)
 From Ferrous Require Import Base.Bytes Model.Resp Model.Types Model.Strings Model.Rdb.
 From Ferrous Require Import Proofs.BytesFacts Proofs.RdbFacts.
 From Ferrous Require Generated.
@@ -82,54 +82,29 @@ Theorem c10_bgsave_flag_discipline_in_source :
   Generated.rdb_bgsave_sets_flag_before_spawn = true /\ Generated.rdb_bgsave_clears_flag_after_match = true.
 Proof. exact gen_bgsave_flag_discipline. Qed.
 
-(** ---- (2) one key under a save that runs beside the command thread (PARTIAL) ----
-    [snapshot_key at_get between]: what write_snapshot writes for a key whose state is [at_get]
-    when [storage.get] clones its value and on which the client commands [between] run before
-    [storage.ttl] reads its deadline (two lock acquisitions, rdb.rs:437-440).
-    Proved: the VALUE written is the key's value at one instant (the get); the PAIR is the key's
-    (value, deadline) of that instant when no command touches the key in between, or when the
-    commands in between leave it as it was. *)
-Theorem c10_snapshot_value_one_instant :
-  forall at_get between v dl,
-  snapshot_key at_get between = Some (v, dl) -> exists dl0, at_get = Some (v, dl0).
-Proof. exact snapshot_value_from_one_instant. Qed.
-Theorem c10_snapshot_pair_consistent_partial :
-  forall at_get between, fold_left cstep between at_get = at_get -> snapshot_key at_get between = at_get.
-Proof. exact snapshot_consistent_if_unchanged. Qed.
+(** ---- (2) one key under a save that runs beside the command thread ----
+    [snapshot_key now s0 before after]: what write_snapshot writes for a key that is in state [s0]
+    when the save starts, on which the client commands [before] run before the save thread reads
+    it and [after] afterwards.  The read is ONE lock acquisition (get_with_ttl, 880a648; a sorted
+    set's items and their count are taken once, e63a0b6).  For every initial state and whatever
+    commands run in between: the (value, deadline) pair written is the pair the key had at one
+    single instant of the save (a member of the states it went through); the key is left out only
+    if it was absent, or past its deadline, at that instant. *)
+Theorem c10_snapshot_from_one_instant :
+  forall now s0 before after,
+  let at_read := fold_left cstep before s0 in
+  In at_read (states_of s0 (before ++ after)) /\
+  (snapshot_key now s0 before after = at_read \/
+   (snapshot_key now s0 before after = None /\ exists v dl, at_read = Some (v, Some dl) /\ dl <= now)).
+Proof. exact snapshot_from_one_instant. Qed.
 
-(** The full claim is refuted (class value-ttl-tear, DESIGN F-10a): a command between the two
-    reads yields a (value, deadline) pair the key never had - here the old value with the
-    deadline of the new one, *)
-Example c10_value_ttl_tear_refuted :
-  let at_get := Some (VStr (bs "old"), None) in
-  let between := [CSet (VStr (bs "new")) (Some 100)] in
-  snapshot_key at_get between = Some (VStr (bs "old"), Some 100) /\
-  ~ In (Some (VStr (bs "old"), Some 100)) (states_of at_get between).
-Proof. split; [reflexivity|]. cbn. intros [H|[H|[]]]; discriminate. Qed.
-(** and a key deleted (or expired) in the window is written without its deadline: immortal
-    after a restart. *)
-Example c10_ttl_dropped_tear_refuted :
-  let at_get := Some (VStr (bs "v"), Some 100) in
-  snapshot_key at_get [CDel] = Some (VStr (bs "v"), None) /\
-  ~ In (Some (VStr (bs "v"), None)) (states_of at_get [CDel]).
-Proof. split; [reflexivity|]. cbn. intros [H|[H|[]]]; discriminate. Qed.
-(** Class zset-len-tear: a sorted set is shared with the save thread by Arc, its length is
-    written before its items are read (rdb.rs:568-574); one ZADD / ZREM in between makes the count
-    disagree with the items and the loader mis-parses the rest of the file: with one item too
-    many the load fails and the following keys are lost; with one too few the next record is
-    swallowed as a member and the load even reports success. *)
-Example c10_zset_len_tear_refuted :
-  let one := 4607182418800017408 in
-  let rest := write_value (bs "after") (VStr (bs "v")) ++ [255; 0; 0; 0; 0; 0; 0; 0; 0] in
-  let more := magic ++ version4 ++ [254; 0; T_ZSET] ++ write_string (bs "z") ++ write_length 1
-              ++ write_zitem (bs "a", one) ++ write_zitem (bs "b", one) ++ rest in
-  let fewer := magic ++ version4 ++ [254; 0; T_ZSET] ++ write_string (bs "z") ++ write_length 2
-               ++ write_zitem (bs "a", one) ++ rest in
-  load_status (load 0 0 more) = LErr /\
-  get_entry (nth 0 (load_dbs (load 0 0 more)) empty_db) (bs "after") = None /\
-  load_status (load 0 0 fewer) = LOk /\
-  get_entry (nth 0 (load_dbs (load 0 0 fewer)) empty_db) (bs "after") = None.
-Proof. vm_compute. repeat split; reflexivity. Qed.
+(** the former tearing witnesses (classes value-ttl-tear, zset-len-tear, repaired): a SET .. EX
+    racing with the save yields the old pair or the new pair, never a mixture *)
+Example c10_snapshot_example :
+  let s0 := Some (VStr (bs "old"), None) in
+  snapshot_key 0 s0 [] [CSet (VStr (bs "new")) (Some 100)] = Some (VStr (bs "old"), None) /\
+  snapshot_key 0 s0 [CSet (VStr (bs "new")) (Some 100)] [] = Some (VStr (bs "new"), Some 100).
+Proof. split; reflexivity. Qed.
 
 (** ---- damaged input ----
     The loader model is a total function of the file bytes.  It never takes the Panic outcome,
